@@ -27,7 +27,7 @@ ENGINE = "seq+threads"
 RUNS = {"quick": 60_000, "thorough": 1_200_000}
 RULE = ("seeded plans in two families: (seq) histories of <=10 (quick) / <=16 (thorough) operations over {ingest of each "
         "waste type, ingest_error, ingest_sensitive, digest(k), autophagy, daemon check_and_prune, clock moves around the "
-        "retention period} with per-item digester / toxic-callback faults; (threads) 2 tasks x 1-3 of the same operations "
+        "retention period, re-ingesting a distinct but field-equal twin of an earlier item} with per-item digester / toxic-callback faults; (threads) 2 tasks x 1-3 of the same operations "
         "under a seeded scheduler with a decision at every line of lysosome.py; configurations max_queue_size 2..8, "
         "auto_digest_threshold 1..8; non-trivial = reached the auto-digest threshold or capacity, or had a raising "
         "digester/callback, or (threads) was pre-empted inside an operation; distinct = distinct (family, configuration, "
